@@ -164,6 +164,86 @@ pub(crate) fn net_connect(addr: &str) -> Option<Option<MemPipe>> {
 }
 
 // ---------------------------------------------------------------------------------------------
+// Broadcast gate: lets a harness hold back what the manager broadcasts, per connection task
+// ---------------------------------------------------------------------------------------------
+
+struct Gate {
+    addr: String,
+    from_manager: tokio::sync::broadcast::Receiver<BroadCmd>,
+    to_task: tokio::sync::broadcast::Sender<BroadCmd>,
+    pending: VecDeque<BroadCmd>,
+}
+
+thread_local! {
+    static GATING: RefCell<bool> = RefCell::new(false);
+    static GATES: RefCell<Vec<Gate>> = RefCell::new(vec![]);
+}
+
+/// Switch gating on/off for connection tasks created on this thread from now on (drops old gates).
+pub fn set_gating(on: bool) {
+    GATING.with(|g| *g.borrow_mut() = on);
+    GATES.with(|g| g.borrow_mut().clear());
+}
+
+/// `None`: gating is off, keep the manager's receiver.
+pub(crate) fn gate_broadcast(
+    addr: &str,
+    from_manager: tokio::sync::broadcast::Receiver<BroadCmd>,
+) -> Option<tokio::sync::broadcast::Receiver<BroadCmd>> {
+    if !GATING.with(|g| *g.borrow()) {
+        return None;
+    }
+    let (to_task, rx) = tokio::sync::broadcast::channel(32);
+    GATES.with(|g| {
+        g.borrow_mut().push(Gate {
+            addr: addr.to_string(),
+            from_manager,
+            to_task,
+            pending: VecDeque::new(),
+        })
+    });
+    Some(rx)
+}
+
+/// Move what the manager broadcast so far into the per-task queues.
+pub fn gates_pump() {
+    GATES.with(|g| {
+        for gate in g.borrow_mut().iter_mut() {
+            loop {
+                match gate.from_manager.try_recv() {
+                    Ok(cmd) => gate.pending.push_back(cmd),
+                    Err(tokio::sync::broadcast::error::TryRecvError::Lagged(_)) => continue,
+                    Err(_) => break,
+                }
+            }
+        }
+    });
+}
+
+/// Broadcasts held back for the newest connection task of `addr`.
+pub fn gate_pending(addr: &str) -> Vec<BroadCmd> {
+    GATES.with(|g| {
+        g.borrow()
+            .iter()
+            .rev()
+            .find(|gate| gate.addr == addr)
+            .map(|gate| gate.pending.iter().cloned().collect())
+            .unwrap_or_default()
+    })
+}
+
+/// Hand the oldest held-back broadcast to the newest connection task of `addr`.
+pub fn gate_release(addr: &str) -> Option<BroadCmd> {
+    GATES.with(|g| {
+        let mut gates = g.borrow_mut();
+        let gate = gates.iter_mut().rev().find(|gate| gate.addr == addr)?;
+        let cmd = gate.pending.pop_front()?;
+        let _ = gate.to_task.send(cmd.clone());
+        Some(cmd)
+    })
+}
+
+// ---------------------------------------------------------------------------------------------
 // Choice points (replace thread_rng)
 // ---------------------------------------------------------------------------------------------
 
